@@ -54,7 +54,14 @@ def gen_cfg(rng, i):
         names_level = 'manager'      # an association table has no class whose __versioned__ could carry the names
     else:
         names_level = rng.choice(['manager', 'class']) if custom else 'manager'
-    return dict(cols=cols, exclude=exclude, include=include,
+    # a mixin that brings some of the columns together with a __versioned__ of its own excluding them; the model's own
+    # options (exclude / include) come first, an exclusion declared by an ancestor applies otherwise
+    mixin_exclude = []
+    if inherit == 'flat' and nonpk and rng.random() < 0.35:
+        mixin_exclude = [k for k in nonpk if rng.random() < 0.5] or [nonpk[0]]
+        if rng.random() < 0.7:
+            include = sorted(set(include) | {rng.choice(mixin_exclude)})
+    return dict(cols=cols, exclude=exclude, include=include, mixin_exclude=mixin_exclude,
                 strategy=rng.choice(['validity', 'subquery']), tracker=rng.random() < 0.4,
                 names=(['tx_id', 'end_tx_id', 'op_type'] if custom else ['transaction_id', 'end_transaction_id', 'operation_type']),
                 names_level=names_level,
@@ -118,9 +125,15 @@ def make_build(cfg):
         targs = {'schema': cfg['schema']} if cfg['schema'] else {}
         if cfg['inherit'] == 'flat':
             attrs = {'__tablename__': 'm', '__versioned__': vo, '__table_args__': targs}
+            mx = cfg.get('mixin_exclude') or []
+            mattrs = {'__versioned__': {'exclude': list(mx)}}
             for c in cfg['cols']:
-                attrs[c['key']] = mkcol(c)
-            env.target = type('M', (Base,), attrs)
+                if c['key'] in mx and not c['fk']:
+                    mattrs[c['key']] = mkcol(c)          # declared on the mixin (copied to the model by declarative)
+                else:
+                    attrs[c['key']] = mkcol(c)
+            bases = (type('Mixin', (object,), mattrs), Base) if mx else (Base,)
+            env.target = type('M', bases, attrs)
             env.parent_table = env.target.__table__
             env.others = []
         elif cfg['inherit'] == 'joined':
@@ -286,8 +299,11 @@ def encode(case, obs):
     assoc = cfg['inherit'] == 'assoc'
 
     def excl(c):
-        # include / exclude are options of a model; an association table has none
-        return not assoc and c['key'] in cfg['exclude'] and c['key'] not in cfg['include']
+        # include / exclude are options of a model; an association table has none. The model's own options first,
+        # then an exclusion declared by an ancestor (the mixin)
+        if assoc or c['key'] in cfg['include']:
+            return False
+        return c['key'] in cfg['exclude'] or c['key'] in (cfg.get('mixin_exclude') or [])
 
     def gp(c):
         return '(mkpc %s %s %s %s %s %s %s %s %s %s %s)' % (
